@@ -8,7 +8,7 @@ HARNESS = dict(_m.HARNESS, args=['--prop', 'C04'])
 
 CONFIG = {
     'subs': ['Split', 'RecordIO'],
-    'props_modules': ['DmlcModel.Props.C04', 'DmlcModel.Props.C04Witness'],
+    'props_modules': ['DmlcModel.Props.C04', 'DmlcModel.Props.C04Witness', 'DmlcModel.Props.C04Chunk', 'DmlcModel.Props.C04Files'],
     'driver': 'Split',
     'harness': HARNESS,
     'rule': 'cases = lists of RecordIO files written by the real RecordIOWriter x cover groups (parts 0..n-1 constructed and '
@@ -22,9 +22,8 @@ CONFIG = {
                     'little-endian host', 'a stream Read returns min(size, remaining) bytes'],
     'trusted_base': ['modelled by hand, tied by correspondence only: control flow of InputSplitBase (as C03) and '
                      'RecordIOSplitter::SeekRecordBegin / FindLastRecordBegin / ExtractNextRecord'],
-    # all C04_* theorems are proved at full strength. Not a Lean theorem here: the tiling of ONE delivered chunk by
-    # RecordIOChunkReader with q sub-parts (that is property C02's theorem); the harness oracle exercises it (drain chunkrd q)
-    # and the Lean side proves every chunk is `writeAll run` for a contiguous run of whole records + the C01 reader round trip.
+    # all C04_* theorems are proved at full strength, including the link to C02 (Props/C04Chunk.lean:
+    # C04_parts_cover_chunk_reader composes C04_chunks_whole_records with C02_tiling).
     'partial': [],
 }
 
